@@ -85,7 +85,7 @@ PROPS = {
         "quick": cfg(16, 25),
         "thorough": cfg(16, 400),
         "exhaustive_key": "sweep_all_256_type_bytes",
-        "rule": "abstract filters are rendered into every front end that can express them (JSON with explicit or auto-detected regex flags, dlt-viewer DLF XML, dlt-convert 'APID CTID ' cells, and from_json(to_json(f))) and Filter::matches is compared with a 40-line specification whose regex criteria come from a catalogue of (pattern, Rust predicate) pairs, so the oracle never runs a regex engine. Part 1 sweeps the small universe completely: every single-criterion filter (10 literal ids and 8 regexes x ecu/apid/ctid, all 256 type values, 8 mstp values, all level bounds and pairs, 11 payload texts and 8 payload regexes (incl. criteria that begin or end with a blank or are a single blank, which tell a front end that trims the criterion from one that keeps it) x case flag, lifecycle lists, 16 apid+ctid pairs) x not x enabled against a fixed message universe (ids short/full, with and without extended header, type bytes: thorough all 256, quick every 7th plus 8 special). Part 2 draws random criteria subsets and random messages. Non-trivial = filter with >=1 matching and >=1 non-matching message; distinct = (kind, enabled, not, per criterion variant, front ends expressible).",
+        "rule": "abstract filters are rendered into every front end that can express them (JSON with explicit or auto-detected regex flags, dlt-viewer DLF XML, dlt-convert 'APID CTID ' cells, and from_json(to_json(f))) and Filter::matches is compared with a 40-line specification whose regex criteria come from a catalogue of (pattern, Rust predicate) pairs, so the oracle never runs a regex engine. Part 1 sweeps the small universe completely: every single-criterion filter (10 literal ids and 8 regexes x ecu/apid/ctid, all 256 type values, 8 mstp values, all level bounds and pairs, 11 payload texts and 9 payload regexes (incl. one that switches the case flag inside the pattern, (?-i)hello (?i)world, which must survive to_json/from_json of a case-insensitive filter; incl. criteria that begin or end with a blank or are a single blank, which tell a front end that trims the criterion from one that keeps it) x case flag, lifecycle lists, 16 apid+ctid pairs) x not x enabled against a fixed message universe (ids short/full, with and without extended header, type bytes: thorough all 256, quick every 7th plus 8 special). Part 2 draws random criteria subsets and random messages. Non-trivial = filter with >=1 matching and >=1 non-matching message; distinct = (kind, enabled, not, per criterion variant, front ends expressible).",
         "floors": {"quick": {"evaluations": 100000, "distinct_nontrivial": 500, "pairs_json": 10000000, "pairs_dlf": 3000000, "pairs_convert-format": 10000, "sweep_filters": 1500, "dlf_filters_with_blank_edged_payload_criterion": 300}, "thorough": {"evaluations": 1000000, "distinct_nontrivial": 1000, "sweep_all_256_type_bytes": 1}},
         "assumptions": ["ids in filters and messages are printable ASCII, NUL padded (regexes run on the 4 raw bytes)", "ambiguous encodings are not generated: '----' cells of the convert format, DLF payload texts with leading/trailing blanks or empty", "the ECU:APID:CTID expression front end lives in the binary and is exercised by C14 (--eac)"],
     },
@@ -118,8 +118,8 @@ PROPS = {
         "level": "exploration",
         "quick": cfg(16, 30),
         "thorough": cfg(16, 400),
-        "rule": "(a) byte strings of 0-600 bytes split into 1-8 volumes incl. empty first/middle/last volumes; 10-500 operations read(n) (n = 0, 1, small, > total) and seek(Start|Current|End) with targets in [0,len] incl. exactly at and around volume boundaries, compared step by step with std::io::Cursor over the concatenation (bytes, positions; a 0-byte read while the model has bytes left is a violation) and drained at the end; (a2) every 4th case: the stream unzip.rs really opens - the crate private cloneable reader (hook verif_cloneable_reader) over a volume chain: up to 4 clones with their own positions over the one shared, position-caching chain; read(n) / in-range seek / clone on a random clone, each clone compared with the concatenation at its own position, and after half of the reads that were cut short at a volume border an access (by the same or another clone) right behind the range that was asked for; every clone drained at the end; (b) every 40th case: zip archives written by a raw zip writer (stored entries; names: nested dirs, unicode, blanks/brackets, duplicates, empty members, directories, '../x', 'a/../../x', absolute incl. the absolute path of a pre-existing file, names that differ from the patterns only in letter case, aliases such as 'dot.dlt' + './dot.dlt' or 'a/b.dlt' + 'a/./b.dlt' that resolve to one file, members larger than the 64 KiB copy buffer; in 1/3 of the filtered extractions some requested members are already present in the target directory as an earlier extraction left them) extracted with extract_to_dir over a chain of random volumes and (every 80th case) with extract_archives from single or multi-volume files on disk with a pattern from a catalogue of (glob, Rust predicate) pairs; sandbox listing before/after. Non-trivial = chain history with >=1 read cut at a volume boundary and >=1 seek, archive checked without finding; distinct = (volumes, empties, size, crossings, empty first/last) resp. archive cases.",
-        "floors": {"quick": {"evaluations": 500000, "distinct_nontrivial": 5000, "archives": 8000, "archives_with_hostile_names": 4000, "volume_boundary_crossings": 500000, "empty_volumes_used": 200000, "multi_volume_archives_on_disk": 800, "members_extracted_and_compared": 8000, "clone_reader_histories": 100000, "clone_reader_accesses_right_behind_a_short_read": 100000}, "thorough": {"evaluations": 10000000, "distinct_nontrivial": 10000}},
+        "rule": "(a) byte strings of 0-600 bytes split into 1-8 volumes incl. empty first/middle/last volumes; 10-500 operations read(n) (n = 0, 1, small, > total) and seek(Start|Current|End) with targets in [0,len] incl. exactly at and around volume boundaries, compared step by step with std::io::Cursor over the concatenation (bytes, positions; a 0-byte read while the model has bytes left is a violation) and drained at the end; (a2) every 4th case: the stream unzip.rs really opens - the crate private cloneable reader (hook verif_cloneable_reader) over a volume chain: up to 4 clones with their own positions over the one shared, position-caching chain; read(n) / in-range seek / clone on a random clone, each clone compared with the concatenation at its own position, and after half of the reads that were cut short at a volume border an access (by the same or another clone) right behind the range that was asked for; every clone drained at the end; (b) every 40th case: zip archives written by a raw zip writer (stored entries; names: nested dirs, unicode, blanks/brackets, duplicates, empty members, directories, '../x', 'a/../../x', absolute incl. the absolute path of a pre-existing file, names that differ from the patterns only in letter case, aliases such as 'dot.dlt' + './dot.dlt' or 'a/b.dlt' + 'a/./b.dlt' that resolve to one file, members larger than the 64 KiB copy buffer; in 1/3 of the filtered extractions some requested members are already present in the target directory as an earlier extraction left them) extracted with extract_to_dir over a chain of random volumes and (every 80th case) with extract_archives from single or multi-volume files on disk with a pattern from a catalogue of (glob, Rust predicate) pairs; in 1/3 of the filtered extract_to_dir calls a rename map stores some requested members under another name (as extract_archives does for single member archives): reported, stored - and, in the re-used directory case, found already present - under the new name with the content of the member; sandbox listing before/after. Non-trivial = chain history with >=1 read cut at a volume boundary and >=1 seek, archive checked without finding; distinct = (volumes, empties, size, crossings, empty first/last) resp. archive cases.",
+        "floors": {"quick": {"evaluations": 500000, "distinct_nontrivial": 5000, "archives": 8000, "archives_with_hostile_names": 4000, "volume_boundary_crossings": 500000, "empty_volumes_used": 200000, "multi_volume_archives_on_disk": 800, "members_extracted_and_compared": 8000, "clone_reader_histories": 100000, "clone_reader_accesses_right_behind_a_short_read": 100000, "renamed_members_reported_under_the_new_name": 1000, "renamed_members_already_present": 100}, "thorough": {"evaluations": 10000000, "distinct_nontrivial": 10000}},
         "assumptions": ["only the default feature set (zip) is built; libarchive formats (7z, bz2) are outside the built configuration", "seek targets beyond the end or before 0 are excluded (std leaves the former implementation-defined and the chain clamps by design)", "duplicate member names accept either member's content"],
     },
     "C17": {
